@@ -261,6 +261,15 @@ def run_case(ctx):
               lower=lower, before=before, after=after, tails=tails)
     ctx.check(dist >= lower - slack, "distance-below-eckart-young-bound|" + list(tgt)[0], dist=dist, lower=lower,
               after=after)
+    if limits is not None and list(tgt)[0] != "both":       # (with `both` the threshold may keep fewer than the limit)
+        # the same bound from the REQUESTED limits (not from what came back): keeping fewer than asked for is no excuse
+        req = float(np.sqrt(sum(float(np.sum(spectra[c][min(int(limits[c]), len(spectra[c])):] ** 2)) for c in range(1, n))))
+        ctx.count("bounds_checked")
+        ctx.check(dist <= req + slack, "distance-above-bound-of-the-requested-limits|" + list(tgt)[0], dist=dist, bound=req,
+                  limits=limits, after=after, ranks=ranks)
+        if all(l >= r for l, r in zip(limits[1:-1], ranks[1:-1])):
+            ctx.check(all(a >= r for a, r in zip(after[1:-1], ranks[1:-1])), "bond-below-schmidt-rank-although-limit-allows-it|" + list(tgt)[0],
+                      after=after, ranks=ranks, limits=limits)
     ctx.check(np.array_equal(np.asarray(mps.qntot), qntot_before), "compress|qntot-changed", before=qntot_before, after=mps.qntot)
     if upper > 1e-12 * max(norm0, 1e-300):
         ctx.nontrivial(desc)
